@@ -27,7 +27,8 @@ def task_type_cases(r, tabs, n):
         tid = 100
         for p in range(nproc):
             labs = r.sample(pool, r.randrange(1, 4))
-            pr = dict(pid=10 + p, appid=1 + p, rank=None, threads=[tid], labels={})
+            # processes spread over one to three looms (the PCF must collect the task types of all of them)
+            pr = dict(pid=10 + p, appid=1 + p, rank=None, threads=[tid], labels={}, loom="node%d" % r.choice([0, 0, 1, 2]))
             sc.procs.append(pr)
             for k, lab in enumerate(labs):
                 typeid = 1 + k
